@@ -53,6 +53,21 @@ package gremfam
 // Aliased duplicates (npm): a share of the package.json files requires one registry package
 // twice in one section under different keys ("lib": "1.0.0" next to
 // "lib-legacy": "npm:lib@0.9.0", or two aliases). Nothing in the oracle is special for them.
+//
+// Proposals (npm/relax, c12Proposals): which patch FixVulns applies with MaxUpgrades = 1 is only
+// a matter of the order of the strategy's proposal list, and every proposal carries its own
+// Fixed / Introduced. The first c12MaxProposals proposals are each decided by the same equation
+// on the original manifest with the proposal's requirement changes applied (harness model and
+// renderer); the fresh analysis is the implementation's. Scenario families next to GenScenario:
+// C11's version chains and universe.GenRelaxStallScenario (an introduced advisory below two
+// direct requirements of which one can be relaxed once only).
+//
+// Active profile (Maven): a share of the pom.xml manifests without local parents declares its
+// last <dependencies> entries inside a profile that is active by default, the first of them
+// mostly as ${dep.version} with the property defined in the profile, at top level, or in both
+// places (universe.GenPomProfile). Nothing in the oracle is special for them. A package that is
+// also in the top-level <dependencyManagement> falls in known-finding class
+// c12.maven_profile_dependency_and_management (the generator drops that entry).
 
 import (
 	"bytes"
@@ -62,6 +77,7 @@ import (
 	"path/filepath"
 	"reflect"
 	"sort"
+	"strings"
 	"testing"
 
 	"deps.dev/util/resolve"
@@ -106,16 +122,37 @@ func genC12(driver string, col *ev.Collector) func(*rapid.T) c12Case {
 			// an explicit list is a proper subset of the advisories: have enough of them
 			cfg.MinVulns, cfg.MaxVulns = 2, 6
 		}
-		c := c12Case{Driver: driver, Scenario: universe.GenScenario(t, cfg), MaxUpgrades: 1}
+		c := c12Case{Driver: driver, MaxUpgrades: 1}
+		switch fam := pct(t, "family?"); {
+		case driver == drvNpmRelax && fam < 10:
+			// version chains (as in C11): each relaxation trades the advisories of one version
+			// for those of the next; with two chains starting from one library one advisory is
+			// reachable through two direct requirements
+			c.Scenario = universe.GenChainScenario(t, universe.ChainConfig{
+				Steps: []string{universe.LevelMajor, universe.LevelMinor, universe.LevelPatch}, Levels: true, Prereleases: true})
+		case driver == drvNpmRelax && fam < 24:
+			// two chains below one advisory, the introduced advisory below both second versions,
+			// one chain relaxable once only
+			c.Scenario = universe.GenRelaxStallScenario(t)
+		default:
+			c.Scenario = universe.GenScenario(t, cfg)
+		}
 		if directVsRange(c.Scenario) && c11Known.IsKnown("c11."+clsDirectVsRange) {
 			// FixVulns does not terminate on these (finding of C11); nothing to compare
 			col.Excluded("c11." + clsDirectVsRange)
 			suppressDirectVsRange(&c.Scenario)
 		}
+		if driver == drvMavenOverride {
+			// the last <dependencies> entries inside a profile that is active by default, the
+			// first of them mostly versioned through a property (defined in the profile, at top
+			// level, or both)
+			universe.GenPomProfile(t, &c.Manifest, 35)
+		}
 		honourAliasDupSection(col, &c.Manifest)
 		honourDepMgmtClass(col, "c12", &c.Manifest)
 		honourDepMgmtRange(col, "c12", &c.Manifest)
 		honourChainMgmtNearer(col, "c12", &c.Manifest)
+		honourProfileDepMgmt(col, "c12", &c.Manifest)
 		o := remOpts{DevDeps: pct(t, "dev_deps") < 55, MaxDepth: -1}
 		if pct(t, "max_depth?") < 40 {
 			o.MaxDepth = universe.IntIn(t, 1, 3, "max_depth")
@@ -292,6 +329,29 @@ func propC12(c c12Case) (ev.Outcome, error) {
 		}
 	}
 	c12StaticClasses(c, w.Index, cls)
+	if pp := c.Manifest.Profile; pp != nil {
+		cls["pom_profile"] = true
+		switch {
+		case pp.Property == "":
+			cls["pom_profile_literal_versions"] = true
+		case pp.InProfile && pp.AtTop && pp.TopValue != "":
+			cls["pom_profile_property_in_profile_and_top_other_value"] = true
+		case pp.InProfile && pp.AtTop:
+			cls["pom_profile_property_in_profile_and_top_same_value"] = true
+		case pp.InProfile:
+			cls["pom_profile_property_in_profile_only"] = true
+		default:
+			cls["pom_profile_property_at_top_only"] = true
+		}
+	}
+	if c.Family != "" {
+		cls["scenario_"+c.Family] = true
+		if strings.HasPrefix(c.Family, "relax_stall") {
+			cls["scenario_relax_stall"] = true
+		} else {
+			cls["scenario_chain_any"] = true
+		}
+	}
 	listed := map[string]bool{}
 	for _, id := range c.Opts.ExplicitVulns {
 		listed[id] = true
@@ -324,6 +384,9 @@ func propC12(c c12Case) (ev.Outcome, error) {
 	if g, err := w.Resolve(context.Background(), path0, options.ResolutionOptions{MavenManagement: c.Opts.MavenManagement}); err == nil {
 		g0 = g
 		c12GraphClasses(c, g0, idSet(res1.Vulnerabilities), cls)
+	}
+	if err := c12Proposals(c, w, path0, idSet(res1.Vulnerabilities), listed, g0, cls); err != nil {
+		return out(true), err
 	}
 	switch len(res1.Patches) {
 	case 0:
@@ -371,6 +434,20 @@ func propC12(c c12Case) (ev.Outcome, error) {
 		cls["patch_fixes_nothing"] = true
 	}
 	c12PatchClasses(c, w, p, cls)
+	if pp := c.Manifest.Profile; pp != nil {
+		for _, u := range p.PackageUpdates {
+			declared, viaProperty := c.Manifest.ProfileDeclares(u.Name)
+			if declared {
+				cls["pom_profile_patch_updates_profile_dependency"] = true
+			}
+			if viaProperty {
+				cls["pom_profile_patch_updates_property_versioned_dependency"] = true
+				if pp.InProfile && pp.AtTop {
+					cls["pom_profile_patch_updates_property_defined_in_profile_and_top"] = true
+				}
+			}
+		}
+	}
 	ids1 := idSet(res1.Vulnerabilities)
 	for _, v := range res1.Vulnerabilities {
 		if v.Unactionable {
@@ -490,6 +567,114 @@ func propC12(c c12Case) (ev.Outcome, error) {
 			sortedKeys(ids1), describePatch(p), sortedKeys(want), sortedKeys(got), note, written)
 	}
 	return out(len(res1.Vulnerabilities) > 0), nil
+}
+
+// c12MaxProposals bounds the number of proposals per case that are decided on their own.
+const c12MaxProposals = 4
+
+// c12Proposals (npm): the patch FixVulns applies is the first admissible entry of the
+// strategy's proposal list, and each entry carries its own report (Fixed / Introduced). The
+// first c12MaxProposals proposals are each decided the way the applied one is: the original
+// manifest with the proposal's requirement changes applied (universe.Manifest.Apply, rendered
+// by the harness's own renderer) is analysed afresh by the implementation under the same
+// options (remediation.ResolveManifest through the proposal hook with every upgrade level set
+// to none: the list FixVulns reports as Vulnerabilities), and the ids found have to be
+// ids(run 1) - ids(Fixed) + ids(Introduced). Cases that cannot be decided (budget, errors of
+// the hook) are counted and skipped.
+func c12Proposals(c c12Case, w *universe.World, path0 string, ids1, listed map[string]bool, g0 *resolve.Graph, cls map[string]bool) error {
+	if c.Universe.System != universe.NPM || len(ids1) == 0 {
+		return nil
+	}
+	var props []result.Patch
+	var err error
+	if !guarded(func() { props, _, err = allPatches(w, path0, c.Opts.build(c.Levels)) }) || w.Client.Exceeded() || err != nil {
+		cls["proposals_skipped"] = true
+		return nil
+	}
+	if len(props) > 1 {
+		cls["proposals_several"] = true
+	}
+	var inOriginal map[string]bool
+	if len(listed) > 0 && g0 != nil {
+		inOriginal = universe.GraphVulnIDs(g0, c.Vulns, c.Universe.System)
+	}
+	seen := map[string]bool{}
+	for i, p := range props {
+		if i >= c12MaxProposals {
+			cls["proposals_beyond_bound"] = true
+			break
+		}
+		if k := patchKey(p); seen[k] {
+			cls["proposals_same_updates_twice"] = true
+		} else {
+			seen[k] = true
+		}
+		m2, err := c.Manifest.Apply(universe.UpdatesOf(p.PackageUpdates))
+		if err != nil {
+			cls["proposal_addresses_nothing"] = true // C11's subject
+			continue
+		}
+		path, err := w.WriteManifest(m2)
+		if err != nil {
+			return fmt.Errorf("harness: %v", err)
+		}
+		var found []string
+		none := universe.Levels{Default: universe.LevelNone}
+		if !guarded(func() { _, found, err = allPatches(w, path, c.Opts.build(none)) }) || w.Client.Exceeded() {
+			cls["proposals_skipped"] = true
+			return nil
+		}
+		if err != nil {
+			cls["proposal_manifest_not_analysable"] = true
+			continue
+		}
+		cls["proposal_reanalysed"] = true
+		if i > 0 {
+			cls["proposal_reanalysed_not_first"] = true
+		}
+		want := map[string]bool{}
+		for id := range ids1 {
+			want[id] = true
+		}
+		for _, f := range p.Fixed {
+			delete(want, f.ID)
+		}
+		for _, in := range p.Introduced {
+			want[in.ID] = true
+		}
+		if len(p.Introduced) > 0 {
+			cls["proposal_introduces"] = true
+		}
+		if len(p.PackageUpdates) > 1 {
+			cls["proposal_multi_update"] = true
+			if len(p.Introduced) > 0 {
+				cls["proposal_multi_update_introduces"] = true
+				if strings.HasPrefix(c.Family, "relax_stall") {
+					cls["relax_stall_proposal_relaxes_both_and_introduces"] = true
+				}
+			}
+		}
+		if len(listed) > 0 {
+			for _, id := range sortedKeys(want) {
+				if listed[id] || inOriginal == nil || inOriginal[id] {
+					continue
+				}
+				if col := ev.Get("C12"); !c.Strict && col.IsKnown(clsExplicitNewUnlisted) {
+					col.Excluded(clsExplicitNewUnlisted)
+					delete(want, id)
+				}
+			}
+		}
+		got := map[string]bool{}
+		for _, id := range found {
+			got[id] = true
+		}
+		if !reflect.DeepEqual(sortedKeys(want), sortedKeys(got)) {
+			return fmt.Errorf("the analysis found %v; proposal %d of the strategy is %s, so a fresh analysis of the manifest with its changes should find %v, but it finds %v; manifest with the proposal applied:\n%s",
+				sortedKeys(ids1), i, describePatch(p), sortedKeys(want), sortedKeys(got), dumpManifest(m2, path))
+		}
+	}
+	return nil
 }
 
 func runC12(t *testing.T, driver string) {
